@@ -1,0 +1,97 @@
+//go:build verif
+// +build verif
+
+// Add-only verification shim for property C07 (frames are written whole). Thin exported wrappers
+// that construct the two connection writers of conn.go (deadlineContextWriter, writeCoalescer)
+// exactly as dialWithoutObserver / init do, over a caller-supplied connection, and expose
+// writeContext and flush. No logic of its own.
+package gocql
+
+import (
+	"context"
+	"io"
+	"time"
+)
+
+// VerifC07Conn is what the writers need from a connection (conn.go: deadlineWriter).
+type VerifC07Conn interface {
+	SetWriteDeadline(time.Time) error
+	io.Writer
+}
+
+// VerifC07Writer wraps a contextWriter.
+type VerifC07Writer struct {
+	w contextWriter
+}
+
+// VerifC07Result is a writeResult.
+type VerifC07Result struct {
+	N   int
+	Err error
+}
+
+// WriteContext calls the real writeContext.
+func (v *VerifC07Writer) WriteContext(ctx context.Context, p []byte) (int, error) {
+	return v.w.writeContext(ctx, p)
+}
+
+// VerifC07NewDirect builds a deadlineContextWriter the way dialWithoutObserver does (conn.go:284-289);
+// quit is supplied by the caller (the driver itself never closes it).
+func VerifC07NewDirect(conn VerifC07Conn, timeout time.Duration, quit chan struct{}) *VerifC07Writer {
+	return &VerifC07Writer{w: &deadlineContextWriter{
+		w:         conn,
+		timeout:   timeout,
+		semaphore: make(chan struct{}, 1),
+		quit:      quit,
+	}}
+}
+
+// VerifC07NewCoalescer is newWriteCoalescer (real timer, flusher goroutine started).
+// enqueued / flushed, when non-nil, are installed as the writer's test hooks before any write.
+func VerifC07NewCoalescer(conn VerifC07Conn, timeout, interval time.Duration, quit <-chan struct{}, enqueued, flushed func()) *VerifC07Writer {
+	wc := newWriteCoalescer(conn, timeout, interval, quit)
+	wc.testEnqueuedHook = enqueued
+	wc.testFlushedHook = flushed
+	return &VerifC07Writer{w: wc}
+}
+
+// VerifC07NewCoalescerManual builds the same writeCoalescer but runs writeFlusherImpl with a
+// caller-owned timer channel (the seam the driver's own tests use), so that the caller decides when
+// the coalescing window ends. resetTimer is called by the flusher when the first frame of a batch
+// is enqueued.
+func VerifC07NewCoalescerManual(conn VerifC07Conn, timeout time.Duration, quit <-chan struct{},
+	timerC <-chan time.Time, resetTimer func(), enqueued, flushed func()) *VerifC07Writer {
+	wc := &writeCoalescer{
+		writeCh:          make(chan writeRequest),
+		c:                conn,
+		quit:             quit,
+		timeout:          timeout,
+		testEnqueuedHook: enqueued,
+		testFlushedHook:  flushed,
+	}
+	go wc.writeFlusherImpl(timerC, resetTimer)
+	return &VerifC07Writer{w: wc}
+}
+
+// VerifC07Flush runs one writeCoalescer.flush over the given frames (in this order) and returns
+// the per-frame results it delivered.
+func VerifC07Flush(conn VerifC07Conn, timeout time.Duration, frames [][]byte) []VerifC07Result {
+	wc := &writeCoalescer{c: conn, timeout: timeout}
+	chans := make([]chan writeResult, len(frames))
+	send := make([]chan<- writeResult, len(frames))
+	for i := range frames {
+		chans[i] = make(chan writeResult, 1)
+		send[i] = chans[i]
+	}
+	wc.flush(send, frames)
+	out := make([]VerifC07Result, len(frames))
+	for i := range chans {
+		select {
+		case r := <-chans[i]:
+			out[i] = VerifC07Result{N: r.n, Err: r.err}
+		default:
+			out[i] = VerifC07Result{N: -1}
+		}
+	}
+	return out
+}
